@@ -30,6 +30,8 @@ func main() {
 		runApi()
 	case "reglist":
 		runRegList()
+	case "reglisttwin":
+		runRegListTwin()
 	case "copies":
 		runCopies()
 	case "ble":
